@@ -142,6 +142,11 @@ def s_to_model_proto(ctx):
             fd = [f for f in funcs if f.rec[3]]
             want = fd[0].rec[4] if fd else (req if req_kind == 1 else cur)
         ctx.check("C02.to_model_proto.default_domain_version_from_main_graph_else_functions_else_request_else_current", term(got[""]) == want, CL)
+        for f in funcs:
+            if f.rec[3]:
+                ctx.check("C02.to_model_proto.functions_use_the_default_domain_at_the_version_the_model_imports", f.rec[4] == term(got[""]),
+                          "C02: 'every operator domain used is imported with a single version' — a model-local function carries its own import of the "
+                          "default domain; onnx.checker rejects the model when an operator of the function differs between the two versions")
         want_ir = irv if ir_given else sel(term(got[""]))
         ctx.check("C02.to_model_proto.ir_version_is_the_callers_else_selected_for_the_default_opset", term(m.fields["ir_version"]) == want_ir, CL)
     fm = m.fields["functions"]
